@@ -244,6 +244,11 @@ where {
             }
         }
 
+        // The packet parser stops without an error if its source fails with `UnexpectedEof`:
+        // make sure the armor was read to its end (`into_parts` panics otherwise).
+        let mut buf = [0u8; 64];
+        while dearmor.read(&mut buf)? > 0 {}
+
         let (_, headers, _, b) = dearmor.into_parts();
 
         if has_rest(b)? {
